@@ -1,30 +1,31 @@
 (* util.ml — glue between the case-file text protocol and the extracted model (trusted; see DESIGN.md 7). *)
+module ZA = Z
 open Model
 
 (* ---- numbers: decimal text <-> Zarith <-> the extracted inductive N / Z / positive ---- *)
-let rec pos_of_zt (x : Z.t) : positive =
-  if Z.equal x Z.one then XH
-  else if Z.testbit x 0 then XI (pos_of_zt (Z.shift_right x 1))
-  else XO (pos_of_zt (Z.shift_right x 1))
+let rec pos_of_zt (x : ZA.t) : positive =
+  if ZA.equal x ZA.one then XH
+  else if ZA.testbit x 0 then XI (pos_of_zt (ZA.shift_right x 1))
+  else XO (pos_of_zt (ZA.shift_right x 1))
 
-let rec zt_of_pos (p : positive) : Z.t =
+let rec zt_of_pos (p : positive) : ZA.t =
   match p with
-  | XH -> Z.one
-  | XO q -> Z.shift_left (zt_of_pos q) 1
-  | XI q -> Z.succ (Z.shift_left (zt_of_pos q) 1)
+  | XH -> ZA.one
+  | XO q -> ZA.shift_left (zt_of_pos q) 1
+  | XI q -> ZA.succ (ZA.shift_left (zt_of_pos q) 1)
 
-let n_of_zt (x : Z.t) : n = if Z.sign x <= 0 then N0 else Npos (pos_of_zt x)
-let zt_of_n (x : n) : Z.t = match x with N0 -> Z.zero | Npos p -> zt_of_pos p
-let z_of_zt (x : Z.t) : z =
-  if Z.sign x = 0 then Z0 else if Z.sign x > 0 then Zpos (pos_of_zt x) else Zneg (pos_of_zt (Z.neg x))
-let zt_of_z (x : z) : Z.t = match x with Z0 -> Z.zero | Zpos p -> zt_of_pos p | Zneg p -> Z.neg (zt_of_pos p)
+let n_of_zt (x : ZA.t) : n = if ZA.sign x <= 0 then N0 else Npos (pos_of_zt x)
+let zt_of_n (x : n) : ZA.t = match x with N0 -> ZA.zero | Npos p -> zt_of_pos p
+let z_of_zt (x : ZA.t) : z =
+  if ZA.sign x = 0 then Z0 else if ZA.sign x > 0 then Zpos (pos_of_zt x) else Zneg (pos_of_zt (ZA.neg x))
+let zt_of_z (x : z) : ZA.t = match x with Z0 -> ZA.zero | Zpos p -> zt_of_pos p | Zneg p -> ZA.neg (zt_of_pos p)
 
-let n_of_int (i : int) : n = n_of_zt (Z.of_int i)
-let int_of_n (x : n) : int = Z.to_int (zt_of_n x)
-let n_of_string (s : string) : n = n_of_zt (Z.of_string s)
-let z_of_string (s : string) : z = z_of_zt (Z.of_string s)
-let string_of_n (x : n) : string = Z.to_string (zt_of_n x)
-let string_of_z (x : z) : string = Z.to_string (zt_of_z x)
+let n_of_int (i : int) : n = n_of_zt (ZA.of_int i)
+let int_of_n (x : n) : int = ZA.to_int (zt_of_n x)
+let n_of_string (s : string) : n = n_of_zt (ZA.of_string s)
+let z_of_string (s : string) : z = z_of_zt (ZA.of_string s)
+let string_of_n (x : n) : string = ZA.to_string (zt_of_n x)
+let string_of_z (x : z) : string = ZA.to_string (zt_of_z x)
 
 let rec nat_of_int (i : int) : nat = if i <= 0 then O else S (nat_of_int (i - 1))
 let rec int_of_nat (x : nat) : int = match x with O -> 0 | S y -> 1 + int_of_nat y
